@@ -52,7 +52,7 @@ def gen_type(r, depth=0, rich=True):
 
 INTS = [0, 1, -1, 5, -17, 100, 7, 42, -2]
 FLOATS = [0.0, 0.5, -1.5, 1e-07, 3.0, 100.25, 1e20, 2.5e-05, -0.001]
-STRS = ["mnist", "~/data", "x", "a b", "word", "two words", "under_score", "UPPER"]
+STRS = ["mnist", "~/data", "x", "a b", "word", "two words", "under_score", "UPPER", "8080", "1.0", "-3", "True"]
 CODES = ["```np.zeros(3)```", "```(1, 2)```", "```[1, 2]```", "```{'a': 1}```", "```foo(1)```", "```x```"]
 
 
@@ -128,7 +128,44 @@ def gen_ir(r, maxp=5, kwargs=True, returns=True, rich=True, p_typ=0.85, p_doc=0.
     doc = prose(r, 2, 8, rich=rich)
     if rich and r.random() < 0.25:
         doc += "\n" + prose(r, 2, 8, rich=rich)
-    return {"doc": doc, "params": params, "returns": ret}
+    irj = {"doc": doc, "params": params, "returns": ret}
+    if r.random() < 0.12:
+        irj = post_parse_shape(r, irj)
+    return irj
+
+
+def default_sentence_forms(v, typ=None):
+    """the text that follows 'Defaults to ' for value v: strings are quoted exactly when the declared type
+    mentions `str` (what doctrans itself writes)"""
+    if isinstance(v, str):
+        return ['"%s"' % v] if (typ and "str" in typ) else [v]
+    return [str(v)]
+
+
+def post_parse_shape(r, irj):
+    """give the description the shape parsers return with default text kept: the prose of every defaulted
+    entry ends with its own default sentence (and the default is still a separate key)"""
+    for _, p in irj["params"]:
+        if "default" in p and "doc" in p and p["default"] is not None:
+            v = p["default"]
+            if isinstance(v, str) and (v.startswith("```") or v == ""):
+                continue
+            doc = p["doc"]
+            doc = doc if doc[-1] in ".," else doc + "."
+            p["doc"] = doc + " Defaults to " + r.choice(default_sentence_forms(v, p.get("typ")))
+    return irj
+
+
+def has_own_default_sentence(p):
+    """prose ends with the default sentence of this entry's own default (value given raw or transport-tagged)"""
+    if "default" not in p or not p.get("doc"):
+        return False
+    v = p["default"]
+    if isinstance(v, dict):
+        if v.get("t") == "none":
+            return False
+        v = {"int": lambda x: int(x), "float": lambda x: float(x)}.get(v["t"], lambda x: x)(v["v"])
+    return any(p["doc"].endswith(" Defaults to " + f) for f in default_sentence_forms(v, p.get("typ")))
 
 
 def to_py_ir(j, name=None, type_="static"):
